@@ -44,13 +44,30 @@ def _gen(arg):
                 src=r.src, live=r.live, gen_time=round(r.gen_time, 3), wall=round(time.time() - t0, 3), tier=c.tier, mutant=mutant)
 
 
+_FAILS = None          # shared per-function-case failure counters (set in the solve workers)
+FAIL_CAP = 3           # once this many obligations of one function-case are not proved, its remaining ones are not attempted
+
+
+def _init_fails(arr):
+    global _FAILS
+    _FAILS = arr
+
+
 def _solve(arg):
-    txt, z3_ms, use_cvc5 = arg
+    txt, z3_ms, use_cvc5 = arg[:3]
+    ri = arg[3] if len(arg) > 3 else None
     from .solve import discharge_smt2
+    if ri is not None and _FAILS is not None and _FAILS[ri] >= FAIL_CAP:
+        return dict(status="unknown", backend="not-attempted", time=0.0,
+                    detail="not attempted: %d obligations of this function already failed" % FAIL_CAP)
     try:
-        return discharge_smt2(txt, z3_ms=z3_ms, use_cvc5=use_cvc5)
+        out = discharge_smt2(txt, z3_ms=z3_ms, use_cvc5=use_cvc5)
     except Exception as e:
-        return dict(status="unknown", backend="z3", time=0.0, detail="solver worker failed: %s" % e)
+        out = dict(status="unknown", backend="z3", time=0.0, detail="solver worker failed: %s" % e)
+    if ri is not None and _FAILS is not None and out["status"] != "proved":
+        with _FAILS.get_lock():
+            _FAILS[ri] += 1
+    return out
 
 
 def run_jobs(jobs, z3_ms, use_cvc5, procs, stop_at_first_failure=False):
@@ -60,14 +77,16 @@ def run_jobs(jobs, z3_ms, use_cvc5, procs, stop_at_first_failure=False):
         results = pool.map(_gen, jobs, chunksize=1)
     todo = [(ri, oi) for ri, r in enumerate(results) for oi, o in enumerate(r["obligations"]) if o["status"] is None]
     if todo:
-        with ctx.Pool(min(procs, len(todo))) as pool:
-            outs = pool.map(_solve, [(results[ri]["obligations"][oi]["smt2"], z3_ms, use_cvc5) for ri, oi in todo], chunksize=2)
+        fails = ctx.Array("i", len(results))
+        with ctx.Pool(min(procs, len(todo)), initializer=_init_fails, initargs=(fails,)) as pool:
+            outs = pool.map(_solve, [(results[ri]["obligations"][oi]["smt2"], z3_ms, use_cvc5, ri) for ri, oi in todo], chunksize=2)
         for (ri, oi), out in zip(todo, outs):
             o = results[ri]["obligations"][oi]
             o.update(status=out["status"], backend=out["backend"], time=round(out["time"], 4), detail=out["detail"][:3000])
         # second chance for the undecided ones: few processes (an idle machine), three times the budget, so that a verdict
         # reached on an idle machine is also reached when all cores were busy during the first pass
-        again = [(ri, oi) for ri, oi in todo if results[ri]["obligations"][oi]["status"] == "unknown"]
+        again = [(ri, oi) for ri, oi in todo if results[ri]["obligations"][oi]["status"] == "unknown"
+                 and results[ri]["obligations"][oi]["backend"] != "not-attempted" and fails[ri] < FAIL_CAP]
         if again:
             with ctx.Pool(min(4, len(again))) as pool:
                 outs = pool.map(_solve, [(results[ri]["obligations"][oi]["smt2"], z3_ms * 3, use_cvc5) for ri, oi in again], chunksize=1)
@@ -171,9 +190,13 @@ def mutant_sweep(keys, z3_ms=5000, procs=None, max_per_fn=None):
         n = len(ss)
         if max_per_fn:
             n = min(n, max_per_fn)
+        src_lines = source.module_ast(c.file)[1].splitlines()
         for m in range(n):
             d = mutants.describe(node, m)
             line = int(d.split("@line")[1])
+            if c.mutant_skip and 0 < line <= len(src_lines) and any(t in src_lines[line - 1] for t in c.mutant_skip):
+                out_of_scope += 1
+                continue
             used = False
             for ci in range(len(c.cases)):
                 if (key, ci) in invalid:
